@@ -540,7 +540,9 @@ def shrink(c):
             if c["fmt"] in "bhi":
                 for i, v in enumerate(xs):
                     if isinstance(v, int) and v not in (0, 1):
-                        yield dict(c, xs=xs[:i] + [1] + xs[i + 1:])
+                        for nv in (1, -1, int(v / 2)):
+                            if nv != v and abs(nv) <= abs(v):
+                                yield dict(c, xs=xs[:i] + [nv] + xs[i + 1:])
             else:
                 for i, v in enumerate(xs):
                     if v != 1:
@@ -562,9 +564,11 @@ def shrink(c):
         if s:
             yield dict(c, samples=s[:-ch])
             yield dict(c, samples=s[ch:])
+            lo, hi = wav_range(c["bits"])
             for i, v in enumerate(s):
-                if v not in (0, 1):
-                    yield dict(c, samples=s[:i] + [1] + s[i + 1:])
+                for nv in (1, -1, int(v / 2), lo, hi):
+                    if nv != v and lo <= nv <= hi and abs(nv) <= abs(v) and v not in (0, 1):
+                        yield dict(c, samples=s[:i] + [nv] + s[i + 1:])
         if c.get("take") is not None:
             yield dict(c, take=None)
             if c["take"] > 0:
